@@ -37,6 +37,7 @@ const (
 	c30EvExitIdle   = iota // cc.Connect()
 	c30EvConnect           // the LB policy calls sc[i].Connect()
 	c30EvShutdown          // the LB policy calls sc[i].Shutdown()
+	c30EvUpdAddrs          // the LB policy calls cc.UpdateAddresses(sc[i], other list): sc[i] is switched between two different one-address lists
 	c30EvConnFail          // the LB policy calls sc[i].Connect() on an IDLE subchannel and the dial fails at once (two updates in one step)
 	c30EvConnOK            // the LB policy calls sc[i].Connect() on an IDLE subchannel and the connection is established at once
 	c30EvDialOK            // the pending dial of subchannel i succeeds, the server completes the HTTP/2 preface
@@ -50,7 +51,7 @@ const (
 	c30NumKinds
 )
 
-var c30KindNames = [...]string{"exitidle", "connect", "shutdown", "connfail", "connok", "dialok", "dialfail", "dialhsfail", "goaway", "srvclose", "adv", "advidle", "close"}
+var c30KindNames = [...]string{"exitidle", "connect", "shutdown", "updateaddrs", "connfail", "connok", "dialok", "dialfail", "dialhsfail", "goaway", "srvclose", "adv", "advidle", "close"}
 
 const (
 	c30Backoff     = time.Second            // constant backoff (base = max = 1s, multiplier 1, jitter 0)
@@ -106,7 +107,7 @@ func c30HistStrings(h []c30Ev) []string {
 func c30Alphabet(n int, withHSFail bool) []c30Ev {
 	var a []c30Ev
 	a = append(a, c30Ev{c30EvExitIdle, -1})
-	for _, k := range []int{c30EvConnect, c30EvConnFail, c30EvConnOK, c30EvDialOK, c30EvDialFail, c30EvDialHSFail, c30EvGoAway, c30EvSrvClose, c30EvShutdown} {
+	for _, k := range []int{c30EvConnect, c30EvUpdAddrs, c30EvConnFail, c30EvConnOK, c30EvDialOK, c30EvDialFail, c30EvDialHSFail, c30EvGoAway, c30EvSrvClose, c30EvShutdown} {
 		if k == c30EvDialHSFail && !withHSFail {
 			continue
 		}
@@ -136,6 +137,7 @@ type c30Model struct {
 	IdleAt time.Duration
 	Gen    int // number of LB policy instances built so far; the live one is Gen-1
 	SC     [2]c30MSC
+	Dials  [2]int // connection attempts that must have been started so far, per address index (all policy generations)
 }
 
 func c30NewModel(n int, auto bool) c30Model {
@@ -170,7 +172,7 @@ func (m *c30Model) Applicable(e c30Ev) bool {
 	}
 	s := &m.SC[e.I]
 	switch e.Kind {
-	case c30EvConnect, c30EvShutdown:
+	case c30EvConnect, c30EvShutdown, c30EvUpdAddrs:
 		return s.St != connectivity.Shutdown
 	case c30EvConnFail, c30EvConnOK:
 		return s.St == connectivity.Idle
@@ -188,6 +190,7 @@ func (m *c30Model) connect(i int, x *c30Expect) {
 		return
 	}
 	s.St, s.Pending = connectivity.Connecting, true
+	m.Dials[i]++
 	x.Deliv[i] = append(x.Deliv[i], connectivity.Connecting)
 }
 
@@ -236,6 +239,24 @@ func (m *c30Model) Apply(e c30Ev) c30Expect {
 		}
 	case c30EvConnect:
 		m.connect(e.I, &x)
+	case c30EvUpdAddrs:
+		// SubConn.UpdateAddresses with a list that does not contain the
+		// address in use: "the connection will gracefully close, and a new
+		// connection will be created". A subchannel that is not connecting or
+		// connected only remembers the new list.
+		s := &m.SC[e.I]
+		switch s.St {
+		case connectivity.Connecting:
+			// the attempt in flight is abandoned (it must not be reported as a
+			// failure) and a new attempt to the new address starts; the
+			// subchannel stays CONNECTING, so there is nothing to report
+			s.Pending = true
+			m.Dials[e.I]++
+		case connectivity.Ready:
+			s.St, s.Live, s.Pending = connectivity.Connecting, false, true
+			m.Dials[e.I]++
+			x.Deliv[e.I] = append(x.Deliv[e.I], connectivity.Connecting)
+		}
 	case c30EvConnFail:
 		m.connect(e.I, &x)
 		s := &m.SC[e.I]
@@ -301,14 +322,17 @@ func (m *c30Model) Apply(e c30Ev) c30Expect {
 // and leaves TRANSIENT_FAILURE only to IDLE after backoff or to SHUTDOWN";
 // CONNECTING is entered from IDLE only; TRANSIENT_FAILURE is the outcome of a
 // failed attempt, i.e. entered from CONNECTING only; READY is left to IDLE
-// (connection lost) or SHUTDOWN; CONNECTING -> IDLE is the documented case of a
+// (connection lost), to SHUTDOWN, or to CONNECTING when UpdateAddresses
+// replaces the address in use (balancer.SubConn.UpdateAddresses: "the
+// connection will gracefully close, and a new connection will be created";
+// the exact-sequence check confines this to updateaddrs steps); CONNECTING -> IDLE is the documented case of a
 // connection that was established and lost before READY was published (it is
 // in the relation, but the reference model never expects it: the histories of
 // this leg cannot produce that race).
 var c30SubAllowed = map[connectivity.State][]connectivity.State{
 	connectivity.Idle:             {connectivity.Connecting, connectivity.Shutdown},
 	connectivity.Connecting:       {connectivity.Ready, connectivity.TransientFailure, connectivity.Idle, connectivity.Shutdown},
-	connectivity.Ready:            {connectivity.Idle, connectivity.Shutdown},
+	connectivity.Ready:            {connectivity.Idle, connectivity.Connecting, connectivity.Shutdown},
 	connectivity.TransientFailure: {connectivity.Idle, connectivity.Shutdown},
 	connectivity.Shutdown:         {},
 }
